@@ -79,6 +79,8 @@ impl ObjectName { pub fn from_key(_ki: &KeyIdentifier, _extension: &str) -> Self
                 && r->Ok_0@[1]->ChildCertificatesUpdated_updates.unsuspended@.len() == 0'''),
             ('only_the_senders_own_key_in_the_named_class', '''r is Ok && r->Ok_0@.len() > 0 ==> self.children@.contains_key(child_handle)
                 && key_in_use_under(self.children@[child_handle], req_key(request), parent_name(self.children@[child_handle], req_rcn(request)))'''),
+            ('replayable_names_only_a_known_child_and_class', '''r is Ok && r->Ok_0@.len() > 0 ==> self.children@.contains_key(child_handle)
+                && self.resources@.contains_key(parent_name(self.children@[child_handle], req_rcn(request)))'''),
             ('no_effect_only_if_class_unknown', '''r is Ok && r->Ok_0@.len() == 0 && self.children@.contains_key(child_handle)
                 ==> !self.resources@.contains_key(parent_name(self.children@[child_handle], req_rcn(request)))'''),
         ]),
